@@ -102,4 +102,7 @@ def hp_callable(v):
     if isinstance(v, dict) and 'table' in v:
         t = list(v['table'])
         return lambda step, t=t: t[step % len(t)]
+    if isinstance(v, dict) and 'exp' in v:          # the exponential-decay averaging schedule of C19, own implementation
+        cap = v['exp']
+        return lambda step, cap=cap: min(1 - 1 / max(step, 1), cap)
     return v
